@@ -178,6 +178,34 @@ def updateV : Val → Val → Val → Res Val
 def getAndUpdateV (x o m : Val) : Res (Val × Val) :=
   (getV x m).bind fun old => (updateV x o m).bind fun m' => .ok (old, m')
 
+/-! Big maps (inside one run): MEM / GET / UPDATE / GET_AND_UPDATE on a `big_map k v` are the operations of the finite map it
+denotes — the same ordered dictionary as for `map k v`. -/
+open Typing _root_.Spec.Coll in
+def memB : Val → Val → Res Val
+  | x, .bigMap k _ items => if goodMap k items && isKey k x then .ok (.bool (findKV keyLt x (kvs items)).isSome) else .stuck
+  | x, m => memV x m
+
+open Typing _root_.Spec.Coll in
+def getB : Val → Val → Res Val
+  | x, .bigMap k v items =>
+    if goodMap k items && isKey k x then
+      .ok (match findKV keyLt x (kvs items) with
+        | some y => .some y
+        | none => .none v)
+    else .stuck
+  | x, m => getV x m
+
+open Typing _root_.Spec.Coll in
+def updateB : Val → Val → Val → Res Val
+  | x, .none v', .bigMap k v items =>
+    if goodMap k items && isKey k x && v' == v then .ok (.bigMap k v (unkvs (eraseKV keyLt x (kvs items)))) else .stuck
+  | x, .some y, .bigMap k v items =>
+    if goodMap k items && isKey k x && typeOf y == v then .ok (.bigMap k v (unkvs (insertKV keyLt x y (kvs items)))) else .stuck
+  | x, o, m => updateV x o m
+
+def getAndUpdateB (x o m : Val) : Res (Val × Val) :=
+  (getB x m).bind fun old => (updateB x o m).bind fun m' => .ok (old, m')
+
 /-- `PAIR n` (n ≥ 2): `PAIR 2 = PAIR`, `PAIR (n+1) = DIP { PAIR n } ; PAIR` — folds the top `n` elements into a right comb -/
 def pairN : Nat → List Val → Option (Val × List Val)
   | 2, a :: b :: st => some (.pair a b, st)
@@ -401,6 +429,137 @@ def packV (v : Val) : Res Val :=
     | some bs => .ok (.bytes (5 :: bs))
     | none => .rtfail
 
+/-! ### Extension 3, phase 1: UNPACK.  `UNPACK t` answers `Some v` exactly on the byte `05` followed by the binary Micheline
+encoding of an expression that the protocol reads as a value `v` of type `t`, and `None` on every other byte string.
+*Encoding*: the strict length-delimited decoder of property C05 (`Spec.Micheline.decode`: tags 0–10 only, known primitives,
+minimal integers, length prefixes that fit exactly, no trailing bytes).  *Reading* (Tezos `parse_data`, not in legacy mode):
+no annotation on any data constructor; `Unit`; `True` / `False`; integers within the range of their type; a timestamp as
+its seconds or as a text in timestamp notation (`Env.readTimestamp`, a parameter); strings of printable ASCII characters
+and newlines; `Some x` / `None`; `Left x` / `Right x`; a pair as `Pair x y`, as `Pair x₁ … xₙ` (n ≥ 3, unfolded to the right,
+which needs a pair type on the right) or as the sequence `{x₁; …; xₙ}` (n ≥ 2) of the same components; lists as sequences; sets
+as strictly ascending sequences; maps as sequences of `Elt k v` with strictly ascending keys. -/
+/-- the characters of a Michelson string: printable ASCII and the newline -/
+def printable (c : Nat) : Bool := c == 10 || (decide (32 ≤ c) && decide (c ≤ 126))
+
+/-- the tags `0x00`–`0x9e` are the primitives of the protocol -/
+def knownPrim (t : Nat) : Bool := decide (t ≤ 158)
+
+def readAll (f : BMich → Option Val) : List BMich → Option (List Val)
+  | [] => some []
+  | x :: xs =>
+    match f x, readAll f xs with
+    | some v, some vs => some (v :: vs)
+    | _, _ => none
+
+def mkPair : Option Val → Option Val → Option Val
+  | some a, some b => some (.pair a b)
+  | _, _ => none
+
+/-- the bindings of a map: `Elt key value` (tag 4), no annotation -/
+def readElts (fk fv : BMich → Option Val) : List BMich → Option (List Val)
+  | [] => some []
+  | .prim t [a, b] none :: xs =>
+    if t = 4 then
+      match mkPair (fk a) (fv b), readElts fk fv xs with
+      | some p, some ps => some (p :: ps)
+      | _, _ => none
+    else none
+  | _ :: _ => none
+
+def isPairTy : Ty → Bool
+  | .pair _ _ => true
+  | _ => false
+
+/-- the value of type `t` an expression denotes (`rt`: the reading of timestamp notation) -/
+def readVal (rt : List Nat → Option Int) : Ty → BMich → Option Val
+  | .unit, m =>
+    match m with
+    | .prim t [] none => if t = 11 then some .unit else none
+    | _ => none
+  | .bool, m =>
+    match m with
+    | .prim t [] none => if t = 10 then some (.bool true) else if t = 3 then some (.bool false) else none
+    | _ => none
+  | .int, m =>
+    match m with
+    | .int v => some (.num .int v)
+    | _ => none
+  | .nat, m =>
+    match m with
+    | .int v => if 0 ≤ v then some (.num .nat v) else none
+    | _ => none
+  | .mutez, m =>
+    match m with
+    | .int v => if 0 ≤ v ∧ v < 2 ^ 63 then some (.num .mutez v) else none
+    | _ => none
+  | .timestamp, m =>
+    match m with
+    | .int v => some (.num .timestamp v)
+    | .str s => (rt s).map fun v => .num .timestamp v
+    | _ => none
+  | .string, m =>
+    match m with
+    | .str s => if s.all printable then some (.str s) else none
+    | _ => none
+  | .bytes, m =>
+    match m with
+    | .bytes b => some (.bytes b)
+    | _ => none
+  | .option t, m =>
+    match m with
+    | .prim p [x] none => if p = 9 then (readVal rt t x).map .some else none
+    | .prim p [] none => if p = 6 then some (.none t) else none
+    | _ => none
+  | .or l r, m =>
+    match m with
+    | .prim p [x] none =>
+      if p = 5 then (readVal rt l x).map fun v => .left v r
+      else if p = 8 then (readVal rt r x).map fun v => .right l v
+      else none
+    | _ => none
+  | .pair l r, m =>
+    match m with
+    | .prim p [x, y] none => if p = 7 then mkPair (readVal rt l x) (readVal rt r y) else none
+    | .prim p (x :: y :: z :: rs) none =>
+      if p = 7 ∧ isPairTy r = true then mkPair (readVal rt l x) (readVal rt r (.prim 7 (y :: z :: rs) none)) else none
+    | .seq [x, y] => mkPair (readVal rt l x) (readVal rt r y)
+    | .seq (x :: y :: z :: rs) =>
+      if isPairTy r = true then mkPair (readVal rt l x) (readVal rt r (.prim 7 (y :: z :: rs) none)) else none
+    | _ => none
+  | .list t, m =>
+    match m with
+    | .seq xs => (readAll (readVal rt t) xs).map fun vs => .list t vs
+    | _ => none
+  | .set t, m =>
+    match m with
+    | .seq xs => (readAll (readVal rt t) xs).bind fun vs => if Typing.strictSorted vs then some (.set t vs) else none
+    | _ => none
+  | .map k v, m =>
+    match m with
+    | .seq xs =>
+      (readElts (readVal rt k) (readVal rt v) xs).bind fun items =>
+        if Typing.strictSorted (items.map Typing.keyOf) then some (.map k v items) else none
+    | _ => none
+  | _, _ => none
+
+/-- `UNPACK t` (for the types `Typing.unpackable`) -/
+def unpackV (env : Env) (t : Ty) : Val → Res Val
+  | .bytes b =>
+    if !Typing.unpackable t then .stuck else
+    match b with
+    | 5 :: rest =>
+      match (_root_.Spec.Micheline.decode knownPrim rest).bind (readVal env.readTimestamp t) with
+      | some v => .ok (.some v)
+      | none => .ok (.none t)
+    | _ => .ok (.none t)
+  | _ => .stuck
+
+/-- CHECK_SIGNATURE: does the signature verify for the key and the message (the verification function is a parameter:
+`env.hashes.checkSig`) -/
+def checkSignatureV (env : Env) : Val → Val → Val → Res Val
+  | .atom .key k, .atom .signature s, .bytes m => .ok (.bool (env.hashes.checkSig k s m))
+  | _, _, _ => .stuck
+
 /-- **extension 2, rules of the form `i / a : S ⇒ r : S`**.  `NEVER` has no rule (there is no value of type `never`). -/
 def unV (env : Env) (i : Instr) (a : Val) : Res Val :=
   match i with
@@ -414,6 +573,7 @@ def unV (env : Env) (i : Instr) (a : Val) : Res Val :=
   | .SET_DELEGATE => setDelegateV env a
   | .EMIT tag t => emitV env tag t a
   | .PACK => packV a
+  | .UNPACK t => unpackV env t a
   | _ => .stuck
 
 def stepExt (env : Env) : Instr → List Val → Res (List Val)
@@ -421,6 +581,9 @@ def stepExt (env : Env) : Instr → List Val → Res (List Val)
   | .SELF ep t, st => .ok (.contract t (normAddr (env.self ++ 37 :: ep)) :: st)
   | .TRANSFER_TOKENS, a :: b :: c :: st => (transferTokensV env a b c).bind fun r => .ok (r :: st)
   | .TRANSFER_TOKENS, _ => .stuck
+  | .CHECK_SIGNATURE, a :: b :: c :: st => (checkSignatureV env a b c).bind fun r => .ok (r :: st)
+  | .CHECK_SIGNATURE, _ => .stuck
+  | .EMPTY_BIG_MAP k v, st => if Typing.simpleComparable k && Typing.bigMapValue v then .ok (.bigMap k v [] :: st) else .stuck
   | i, a :: st => (unV env i a).bind fun r => .ok (r :: st)
   | _, [] => .stuck
 
@@ -458,7 +621,8 @@ def step (env : Env) : Instr → List Val → Res (List Val)
   | .PUSH _ v, st => .ok (v :: st)
   | .LAMBDA a b body, st => .ok (.lam a b body :: st)
   | .APPLY, x :: .lam (.pair ta tb) b body :: st =>
-    if typeOf x = ta then .ok (.lam tb b (.seq [.PUSH ta x, .PAIR, body]) :: st) else .stuck
+    -- the captured value is written into the code as a `PUSH`: its type has to be pushable
+    if typeOf x = ta ∧ Typing.pushable ta = true then .ok (.lam tb b (.seq [.PUSH ta x, .PAIR, body]) :: st) else .stuck
   | .FAILWITH, x :: _ => .failed x
   | .UNIT, st => .ok (.unit :: st)
   | .PAIR, x :: y :: st => .ok (.pair x y :: st)
@@ -490,10 +654,10 @@ def step (env : Env) : Instr → List Val → Res (List Val)
   | .EMPTY_MAP k v, st => .ok (.map k v [] :: st)
   | .EMPTY_SET t, st => if Typing.simpleComparable t then .ok (.set t [] :: st) else .stuck   -- elements must be comparable
   | .SIZE, .set _ xs :: st => .ok (.num .nat xs.length :: st)
-  | .MEM, a :: b :: st => (memV a b).bind fun r => .ok (r :: st)
-  | .GET, a :: b :: st => (getV a b).bind fun r => .ok (r :: st)
-  | .UPDATE, a :: b :: c :: st => (updateV a b c).bind fun r => .ok (r :: st)
-  | .GET_AND_UPDATE, a :: b :: c :: st => (getAndUpdateV a b c).bind fun r => .ok (r.1 :: r.2 :: st)
+  | .MEM, a :: b :: st => (memB a b).bind fun r => .ok (r :: st)
+  | .GET, a :: b :: st => (getB a b).bind fun r => .ok (r :: st)
+  | .UPDATE, a :: b :: c :: st => (updateB a b c).bind fun r => .ok (r :: st)
+  | .GET_AND_UPDATE, a :: b :: c :: st => (getAndUpdateB a b c).bind fun r => .ok (r.1 :: r.2 :: st)
   | .SIZE, .str x :: st => .ok (.num .nat x.length :: st)
   | .SIZE, .bytes x :: st => .ok (.num .nat x.length :: st)
   | .SIZE, .list _ xs :: st => .ok (.num .nat xs.length :: st)
